@@ -127,6 +127,11 @@ def build_matrix_inputs(cache_dir):
     inputs["i9"] = {"call": lambda mp: SL3.bilform_matrix(use_mp=mp), "ref": ref(SL3, e3, e3), "shape": (len(e3), len(e3))}
     inputs["i10"] = {"call": lambda mp: SL1.bilform_matrix(elems_trial=tuple(e1[:8]), elems_test=tuple(rev), use_mp=mp), "ref": ref(SL1, rev, e1[:8]),
                      "shape": (len(rev), 8)}
+    # test elements of the first half of the time interval only, trial = all leaves with the late ones first: whole trial
+    # columns vanish by causality, in front of columns that do not
+    early = [e for e in e1 if float(e.time_interval[1]) <= 0.5]
+    late_first = sorted(e1, key=lambda e: -float(e.time_interval[0]))
+    inputs["i11"] = {"call": lambda mp: SL1.bilform_matrix(early, late_first, use_mp=mp), "ref": ref(SL1, early, late_first), "shape": (len(early), len(late_first))}
     return inputs
 
 
@@ -303,8 +308,10 @@ def run(prop, tier, seed):
         os.makedirs(mdir2)
         mi2 = build_matrix_inputs(mdir2)
         mi2["_dir"] = mdir2
-        names = ["i8", "i9", "i10"]
-        scripts = fixed_scripts(names, set(), al.KINDS[:2], workers)[:3] + behaviours(ctx, set(names), set(), workers, True, 3 if quick else 40, 40, seed + 9)
+        names = ["i8", "i9", "i10", "i11"]
+        both_paths = [[ev for n in names for ev in ({"ev": "return", "in": n, "mp": True, "w": 3}, {"ev": "delete", "in": n},
+                                                    {"ev": "return", "in": n, "mp": False, "w": 1}, {"ev": "return", "in": n, "mp": True, "w": 2})]]
+        scripts = both_paths + fixed_scripts(names, set(), al.KINDS[:2], workers)[:3] + behaviours(ctx, set(names), set(), workers, True, 3 if quick else 40, 40, seed + 9)
         st, ev = execute(ctx, scripts, mi2, names, set(), True, rng, "matrix-call-forms")
         runs.append(st)
         all_events += ev
